@@ -148,16 +148,55 @@ def r2(ctx, rep):
         raise AnchorMissing("impl Deserialize for Span")
     vs = [n for n in walk(de[0]["body"]) if n.get("k") == "item_fn" and n["name"] == "visit_str"]
     body = vs[0]["body"] if vs else de[0]["body"]
-    splits = [(lit_val(n["a"][0]), show(n["r"])) for n in walk(body) if n.get("k") == "mcall" and n["m"] == "split_once"]
+    # dataflow, independent of names and of `if let` / `let else` / `match` spelling:
+    # every binder of a `split_once(sep)` result is tagged (sep, position); locals are followed through `.parse()` re-bindings
+    import guards
+    par = guards.parents(body)
+    tag = {}        # id(pattern ident node) -> (sep, index, receiver node)
+    for n in walk(body):
+        pat, ex = None, None
+        if n.get("k") == "let":                       # `if let P = E` / `while let`
+            pat, ex = n["pat"], n["e"]
+        elif n.get("k") == "local" and n.get("init") is not None:
+            pat, ex = n["pat"], n["init"]
+        elif n.get("k") == "match":
+            for a in n["arms"]:
+                if "Some" in show(a["pat"]):
+                    pat, ex = a["pat"], n["e"]
+        if pat is None or not (ex.get("k") == "mcall" and ex["m"] == "split_once"):
+            continue
+        names = [x for x in walk(pat) if x.get("k") == "p_ident"]
+        if len(names) == 2:
+            for i, x in enumerate(names):
+                tag[x["n"]] = (lit_val(ex["a"][0]), i, ex["r"])
+
+    parsed_as = {}
+
+    def origin(e, depth=0, field=None):
+        """(sep, index) of the split component an expression is computed from"""
+        while e is not None and e.get("k") in ("try", "mcall", "paren", "ref"):
+            if e.get("k") == "mcall" and e["m"] == "parse" and field is not None:
+                parsed_as[field] = (e.get("tf") or "").replace(" ", "").strip(":<>")
+            e = e["e"] if e.get("k") in ("try", "paren", "ref") else e["r"]
+        if e is None or e.get("k") != "path" or depth > 4:
+            return None
+        st_ = guards.visible_def_nodes(par, e, e["p"])
+        if st_ is not None and st_.get("init") is not None and not (st_["init"].get("k") == "mcall" and st_["init"]["m"] == "split_once"):
+            return origin(st_["init"], depth + 1, field)
+        return tag.get(e["p"], (None, None, None))[:2] if e["p"] in tag else None
     st = None
+    st_node = None
     for n in walk(body):
         if n.get("k") == "struct" and last_seg(n["p"]) == "Span":
-            st = {a: show(b) for a, b in n["f"]}
-    ok = splits == [(":", "v"), ("-", "char_span")] and st == {"start": "start", "end": "end", "source_id": "file_id"}
-    rep.check(ok, "span:reader", f"the reader must split `file:start-end` at the first ':' and then at '-', and build Span{{source_id: file, start, end}}; found splits {splits} fields {st}", file=de[0]["file"], line=de[0]["l"], fn=de[0]["path"])
-    # binder order of the second split: (start, end)
-    pats = [show(n["c"]["pat"]) for n in walk(body) if n.get("k") == "if" and n["c"].get("k") == "let" and "split_once" in show(n["c"]["e"])]
-    rep.check(pats == ["Some((file_id, char_span))", "Some((start, end))"], "span:order", f"segments must be bound in the order written (file, then start, then end); found {pats}", file=de[0]["file"], line=de[0]["l"], fn=de[0]["path"])
+            st_node = {a: b for a, b in n["f"]}
+    got = {k: origin(v, 0, k) for k, v in (st_node or {}).items()}
+    second_recv = [origin(v[2]) for v in tag.values() if v[0] == "-"]
+    ok = got == {"source_id": (":", 0), "start": ("-", 0), "end": ("-", 1)} and bool(second_recv) and all(r == (":", 1) for r in second_recv)
+    rep.check(ok, "span:reader", f"the reader must split `file:start-end` at the first ':' and the remainder at '-', and build Span{{source_id: 1st of ':', start: 1st of '-', end: 2nd of '-'}}; "
+              f"found fields {got}, '-' applied to {second_recv}", file=de[0]["file"], line=de[0]["l"], fn=de[0]["path"])
+    rep.check(parsed_as == {"source_id": "u16", "start": "usize", "end": "usize"}, "span:widths",
+              f"each component must be parsed at the width of its field (source_id: u16, start / end: usize); found {parsed_as}: a narrower parse rejects spans of large sources",
+              file=de[0]["file"], line=de[0]["l"], fn=de[0]["path"])
     # Ident: sequence of path ++ [name]  <->  from_path(Vec<String>)
     ise = [f for f in syn.fns if f["crate"] == "prqlc_parser" and f.get("self_short") == "Ident" and f.get("trait_short") == "Serialize"]
     ide = [f for f in syn.fns if f["crate"] == "prqlc_parser" and f.get("self_short") == "Ident" and f.get("trait_short") == "Deserialize"]
